@@ -95,6 +95,6 @@ func writeEvidence(p Property, tier string, seed uint64, st *Stats, violations i
 		"wall_s":     wall,
 		"violations": violations,
 	}
-	path := filepath.Join(verifHome(), "evidence", p.ID()+".json")
+	path := filepath.Join(outHome(), "evidence", p.ID()+".json")
 	return os.WriteFile(path, []byte(mustJSON(ev)), 0o644)
 }
